@@ -28,12 +28,6 @@ fn formal_time_scale() {
 mod kani_harnesses {
     use super::*;
     #[kani::proof]
-    fn kani_harness_formatted_len() {
-        let callee: TimeScale = kani::any();
-        callee.formatted_len();
-    }
-
-    #[kani::proof]
     fn kani_harness_is_gnss() {
         let callee: TimeScale = kani::any();
         callee.is_gnss();
